@@ -11,6 +11,7 @@ def run_unit_cases(ctx, res, cases, *, nontrivial, sample_keys, chunk=200, modul
     n_ok = 0
     seen, nontriv = set(), set()
     kinds = {}
+    clauses = {}
     for c in done:
         v = verdicts[c["cid"]]
         h = digest({k: c.get(k) for k in sample_keys})
@@ -21,10 +22,12 @@ def run_unit_cases(ctx, res, cases, *, nontrivial, sample_keys, chunk=200, modul
         if v["v"][0] == "ok":
             n_ok += 1
         elif v["v"][0] == "FAIL":
+            key = f"{c.get('kind', c['fn'])}: {v['v'][1]}"
+            clauses[key] = clauses.get(key, 0) + 1
             add_violation(ctx, res, v["v"][1], {"kind": "unit", "property": ctx.prop, "case": c, "verdict": v},
                           f"case {c['cid']} ({c.get('kind', c['fn'])}): {v['v'][2][:300]}")
     res.merge_cov(evaluations=len(cases), traces_validated_against_impl=n_ok, states=st["distinct"],
-                  transitions=st["generated"], tlc_runs=st["tlc_runs"], case_kinds=kinds)
+                  transitions=st["generated"], tlc_runs=st["tlc_runs"], case_kinds=kinds, clauses=clauses)
     res.coverage.setdefault("_seen", set()).update(seen)
     res.coverage.setdefault("_nontriv", set()).update(nontriv)
     return done, verdicts
